@@ -8,6 +8,7 @@ package c10
 
 import (
 	"fmt"
+	"os"
 	"sort"
 	"strings"
 	"testing"
@@ -101,7 +102,7 @@ func TestC10_Reorg(t *testing.T) {
 		// a third of the cases are lockup-heavy: most block rewards of trunk and branches go to one
 		// contract-held tranche with changing delegates, so that rolled-back blocks overwrite (not
 		// just create) lockup records
-		if rapid.IntRange(0, 2).Draw(t, "lockupHeavy") == 0 {
+		if rapid.IntRange(0, 2).Draw(t, "lockupHeavy") == 0 || os.Getenv("VERIF_C10_LOCKUP_HEAVY") != "" {
 			trunk.StickyPct = 70
 			stats.Label(part, "lockup_heavy")
 		}
